@@ -83,8 +83,25 @@ def child_main():
     real_stdout.flush()
 
 
+# what the end of a child's stderr says when the MACHINE (not the library) ended it: memory / process / descriptor exhaustion
+RESOURCE_WORDS = ("MemoryError", "Cannot allocate memory", "ArrayMemoryError", "Resource temporarily unavailable", "Too many open files", "No space left on device",
+                  "can't start new thread", "BlockingIOError", "OpenBLAS blas_thread_init")
+
+
+def skippable(err):
+    """a child that hit its time limit, was killed by a signal or ran out of memory / processes is skipped and counted - never a verdict"""
+    return bool(err) and (err == "timeout" or err.startswith("killed:") or err.startswith("resources:"))
+
+
 def spawn(args, timeout):
     env = dict(os.environ)
+    try:
+        return _spawn(args, timeout, env)
+    except OSError as e:          # fork / exec refused (process table full, out of memory): the pass cannot start; skipped, not a verdict
+        return None, "resources: cannot start the child process: " + str(e)[:120]
+
+
+def _spawn(args, timeout, env):
     return subprocess.Popen([sys.executable, "-m", "harness.props.C18_hist"] + [str(a) for a in args], stdout=subprocess.PIPE, stderr=subprocess.PIPE,
                             env=env, cwd=os.path.dirname(os.path.dirname(os.path.dirname(os.path.abspath(__file__))))), time.time() + timeout
 
@@ -92,6 +109,8 @@ def spawn(args, timeout):
 def collect(proc_deadline):
     """(records | None, error string | None)"""
     proc, deadline = proc_deadline
+    if proc is None:
+        return None, deadline     # (spawn failed: the second component is the reason)
     try:
         out, err = proc.communicate(timeout=max(1.0, deadline - time.time()))
     except subprocess.TimeoutExpired:
@@ -99,7 +118,13 @@ def collect(proc_deadline):
         proc.communicate()
         return None, "timeout"
     if proc.returncode != 0:
-        return None, f"exit {proc.returncode}: " + err.decode(errors="replace")[-400:]
+        tail = err.decode(errors="replace")[-400:]
+        if proc.returncode < 0:
+            # ended by a signal (the kernel's out-of-memory killer, an operator's kill, a cgroup limit): says nothing about the library
+            return None, f"killed: signal {-proc.returncode}"
+        if any(w in tail for w in RESOURCE_WORDS):
+            return None, "resources: " + tail[-200:].replace("\n", " ")
+        return None, f"exit {proc.returncode}: " + tail
     try:
         return json.loads(out.decode()), None
     except Exception as e:  # noqa
@@ -121,9 +146,9 @@ def judge_passes(chk, passes, parent, rows, tier, seed, n_rand):
     for order, pd in passes.items():
         recs, err = collect(pd)
         if recs is None:
-            if err == "timeout":
-                chk.hist("skipped", "history pass " + order + ": timeout")
-                chk.notes.append(f"history pass {order} hit its time limit and was skipped (not a verdict)")
+            if skippable(err):
+                chk.hist("skipped", "history pass " + order + ": " + err.split(":")[0])
+                chk.notes.append(f"history pass {order} did not finish for a reason outside the library ({err[:160]}) and was skipped (not a verdict)")
             else:
                 chk.broken.append({"what": "C18 history pass " + order + " (fresh process, other dtype order) did not complete", "detail": err})
             continue
@@ -134,8 +159,11 @@ def judge_passes(chk, passes, parent, rows, tier, seed, n_rand):
             done.append([name, dt])
             t = byname.get(name)
             ref = parent.get((name, dt))
-            if t is None or ref is None or st == "timeout" or ref[0] == "timeout":
+            if t is None or ref is None or st == "timeout" or ref[0] in ("timeout", "resources"):
                 continue          # primer call / not run by the parent / machine load
+            if st != "ok" and error and any(w in str(error) for w in RESOURCE_WORDS):
+                chk.hist("skipped", "history pass " + order + ": a call ran out of memory / processes")
+                continue
             obs = sorted((s, d) for s, d in obs)
             n_cmp += 1
             chk.count(key=("history", order, name, dt), nontrivial=True)
@@ -340,30 +368,45 @@ MUTABLE_CTORS = {"dict", "list", "set", "defaultdict", "OrderedDict", "deque", "
 #  - import-time registration of backends and backend methods (__init_subclass__, register_method, register_sparse_backend)
 #  - the einsum plugins (optional dependencies opt_einsum / cuquantum, not installed): they cache CONTRACTION PATHS (expression objects) per
 #    equation and shapes, never arrays, and swap the backend's einsum
+# key -> (number of sites with this key in the source as read, why the site is not a path for array data of one call into another).  FAIL CLOSED: a site
+# with a key that is not listed, or one site MORE than the listed number under a listed key (a second store into the same registry from the same
+# function), is a broken tie.  tools/manifest.d/C18.json (note) repeats the justification of every entry.
+_J_PLUGIN_SWAP = ("einsum plugin (optional dependency, not installed): remembers the backend's ORIGINAL einsum function object so that use_default_einsum can "
+                  "restore it; a function, never an array")
+_J_PLUGIN_PATH = ("einsum plugin (optional dependency, not installed): cache of CONTRACTION PATHS / expression objects keyed by equation and operand SHAPES; "
+                  "the operands themselves are passed on every call, no array is stored")
+_J_DISPATCH = ("backend dispatch (tl.* / tenalg.* names re-bound to the current backend's functions): stores function bindings and attribute descriptors, "
+               "global by design and documented; no array")
+_J_SELECT = ("backend selection (set_backend / initialize_backend): stores the selected backend OBJECT / its name, global or thread-local by design and "
+             "documented; only the NumPy backend is installed; no array")
+_J_REGISTRY = ("registry of instantiated backend objects keyed by backend name, filled on the first selection of a name; backend objects hold no arrays")
+_J_IMPORT = ("import-time registration of a backend class / of a backend method (runs when a subclass is defined or a method is registered, not inside a "
+             "numerical call); classes and functions, no array")
 SCAN_WHITELIST = {
-    ("tensorly.plugins.use_default_einsum", "global", "PREVIOUS_EINSUM"),
-    ("tensorly.plugins.use_opt_einsum", "global", "PREVIOUS_EINSUM"),
-    ("tensorly.plugins.use_opt_einsum.<locals>.cached_einsum", "module-state-store", "OPT_EINSUM_PATH_CACHE"),
-    ("tensorly.plugins.use_cuquantum", "global", "CUQUANTUM_HANDLE"),
-    ("tensorly.plugins.use_cuquantum", "global", "PREVIOUS_EINSUM"),
-    ("tensorly.plugins.use_cuquantum.<locals>.cached_einsum", "module-state-store", "CUQUANTUM_PATH_CACHE"),
-    ("tensorly.backend.__init__.BackendManager.use_dynamic_dispatch", "setattr", "cls"),
-    ("tensorly.backend.__init__.BackendManager.use_static_dispatch", "setattr", "cls"),
-    ("tensorly.backend.__init__.BackendManager.initialize_backend", "class-attribute-store", "cls._default_backend"),
-    ("tensorly.backend.__init__.BackendManager.load_backend", "class-attribute-store", "cls._loaded_backends"),
-    ("tensorly.backend.__init__.BackendManager.set_backend", "class-attribute-store", "cls._backend"),
-    ("tensorly.backend.__init__.BackendManager.set_backend", "class-attribute-store", "cls._default_backend"),
-    ("tensorly.backend.__init__.BackendManager.set_backend", "class-attribute-store", "cls._THREAD_LOCAL_DATA.backend"),
-    ("tensorly.backend.core.Backend.__init_subclass__", "class-attribute-store", "cls.backend_name"),
-    ("tensorly.backend.core.Backend.__init_subclass__", "class-attribute-store", "cls._available_backends"),
-    ("tensorly.backend.core.Backend.register_method", "setattr", "cls"),
-    ("tensorly.contrib.sparse.backend.__init__.register_sparse_backend", "module-state-store", "_LOADED_BACKENDS"),
-    ("tensorly.tenalg.__init__.TenalgBackendManager.use_dynamic_dispatch", "setattr", "cls"),
-    ("tensorly.tenalg.__init__.TenalgBackendManager.load_backend", "class-attribute-store", "cls._loaded_backends"),
-    ("tensorly.tenalg.base_tenalg.TenalgBackend.__init_subclass__", "class-attribute-store", "cls.backend_name"),
-    ("tensorly.tenalg.base_tenalg.TenalgBackend.__init_subclass__", "class-attribute-store", "cls._available_tenalg_backends"),
-    ("tensorly.tenalg.base_tenalg.TenalgBackend.register_method", "setattr", "cls"),
+    ("tensorly.plugins.use_default_einsum", "global", "PREVIOUS_EINSUM"): (1, _J_PLUGIN_SWAP),
+    ("tensorly.plugins.use_opt_einsum", "global", "PREVIOUS_EINSUM"): (1, _J_PLUGIN_SWAP),
+    ("tensorly.plugins.use_opt_einsum.<locals>.cached_einsum", "module-state-store", "OPT_EINSUM_PATH_CACHE"): (1, _J_PLUGIN_PATH),
+    ("tensorly.plugins.use_cuquantum", "global", "CUQUANTUM_HANDLE"): (1, "einsum plugin (cuquantum, not installed): the library handle of cuTensorNet; an opaque handle, no array"),
+    ("tensorly.plugins.use_cuquantum", "global", "PREVIOUS_EINSUM"): (1, _J_PLUGIN_SWAP),
+    ("tensorly.plugins.use_cuquantum.<locals>.cached_einsum", "module-state-store", "CUQUANTUM_PATH_CACHE"): (1, _J_PLUGIN_PATH),
+    ("tensorly.backend.__init__.BackendManager.use_dynamic_dispatch", "setattr", "cls"): (2, _J_DISPATCH),
+    ("tensorly.backend.__init__.BackendManager.use_static_dispatch", "setattr", "cls"): (2, _J_DISPATCH),
+    ("tensorly.backend.__init__.BackendManager.initialize_backend", "class-attribute-store", "cls._default_backend"): (1, _J_SELECT),
+    ("tensorly.backend.__init__.BackendManager.load_backend", "class-attribute-store", "cls._loaded_backends"): (1, _J_REGISTRY),
+    ("tensorly.backend.__init__.BackendManager.set_backend", "class-attribute-store", "cls._backend"): (1, _J_SELECT),
+    ("tensorly.backend.__init__.BackendManager.set_backend", "class-attribute-store", "cls._default_backend"): (1, _J_SELECT),
+    ("tensorly.backend.__init__.BackendManager.set_backend", "class-attribute-store", "cls._THREAD_LOCAL_DATA.backend"): (1, _J_SELECT),
+    ("tensorly.backend.core.Backend.__init_subclass__", "class-attribute-store", "cls.backend_name"): (1, _J_IMPORT),
+    ("tensorly.backend.core.Backend.__init_subclass__", "class-attribute-store", "cls._available_backends"): (1, _J_IMPORT),
+    ("tensorly.backend.core.Backend.register_method", "setattr", "cls"): (1, _J_IMPORT),
+    ("tensorly.contrib.sparse.backend.__init__.register_sparse_backend", "module-state-store", "_LOADED_BACKENDS"): (1, _J_REGISTRY + " (sparse contrib backend, needs the optional `sparse` package)"),
+    ("tensorly.tenalg.__init__.TenalgBackendManager.use_dynamic_dispatch", "setattr", "cls"): (2, _J_DISPATCH),
+    ("tensorly.tenalg.__init__.TenalgBackendManager.load_backend", "class-attribute-store", "cls._loaded_backends"): (1, _J_REGISTRY),
+    ("tensorly.tenalg.base_tenalg.TenalgBackend.__init_subclass__", "class-attribute-store", "cls.backend_name"): (1, _J_IMPORT),
+    ("tensorly.tenalg.base_tenalg.TenalgBackend.__init_subclass__", "class-attribute-store", "cls._available_tenalg_backends"): (1, _J_IMPORT),
+    ("tensorly.tenalg.base_tenalg.TenalgBackend.register_method", "setattr", "cls"): (1, _J_IMPORT),
 }
+WHITELISTED_SITES = sum(n for n, _ in SCAN_WHITELIST.values())      # 25
 
 
 def _dotted(n):
@@ -618,10 +661,352 @@ def scan_persistent_state(repo):
                 continue
             mod = os.path.relpath(pth, repo)[:-3].replace(os.sep, ".")
             _scan_tree(tree, mod, hits, n_fn)
-    keys = {(h["function"], h["kind"], h["name"]) for h in hits}
-    open_hits = [h for h in hits if (h["function"], h["kind"], h["name"]) not in SCAN_WHITELIST]
-    stale = sorted(SCAN_WHITELIST - keys)
+    import collections
+    cnt = collections.Counter((h["function"], h["kind"], h["name"]) for h in hits)
+    open_hits = []
+    for h in hits:
+        k = (h["function"], h["kind"], h["name"])
+        if k not in SCAN_WHITELIST:
+            open_hits.append(h)
+        elif cnt[k] > SCAN_WHITELIST[k][0]:
+            # more sites under a whitelisted key than were read by hand: which of them is the new one cannot be told, all are reported
+            open_hits.append(dict(h, kind=h["kind"] + f" ({cnt[k]} sites, {SCAN_WHITELIST[k][0]} whitelisted)"))
+    stale = sorted(k for k, (n, _) in SCAN_WHITELIST.items() if cnt.get(k, 0) < n)
     return open_hits, hits, n_fn[0], stale
+
+
+# ============================================================================= (d) static: state kept on ESTIMATOR INSTANCES
+# `self.x = v` is exempt in (c): an estimator object is meant to remember its fit.  What must not happen is that a FIT reads what an EARLIER fit of the same
+# object left there (a warm start, a cached Gram matrix, `if not hasattr(self, "coef_")`): then the second fit's results carry the first fit's dtype.  In the
+# terms of Model/DtypeHist.v the fitted attributes of the object are the persistent variables G of the session "the same object fitted again and again" and
+# a fit method must be hist_free: no read of a fitted attribute that this call has not yet overwritten (must-define analysis over the statements: both
+# branches of an `if`, zero iterations of a loop, every handler of a `try`).  Methods called on self are followed (fit -> fit_transform -> transform).
+FIT_PREFIX = "fit"
+
+
+def _self_attr(n):
+    """'A' for the expression self.A, else None"""
+    if isinstance(n, ast.Attribute) and isinstance(n.value, ast.Name) and n.value.id == "self":
+        return n.attr
+    return None
+
+
+class _InstScan:
+    def __init__(self, cls_node, qual, inherited=None):
+        self.qual = qual
+        self.methods = dict(inherited or {})        # methods of the library base classes (by simple name), overridden by the class's own
+        self.methods.update({m.name: m for m in cls_node.body if isinstance(m, (ast.FunctionDef, ast.AsyncFunctionDef))})
+        self.fitted = set()
+        self.init_attrs = set()
+        if "__init__" in self.methods:
+            for n in ast.walk(self.methods["__init__"]):
+                a = _self_attr(n)
+                if a is not None and isinstance(n.ctx, ast.Store):
+                    self.init_attrs.add(a)          # options stored by the constructor (a callback stored there may be called as self.callback(...))
+        for name, m in self.methods.items():
+            if name == "__init__":
+                continue
+            for n in ast.walk(m):
+                a = _self_attr(n)
+                if a is not None and isinstance(n.ctx, (ast.Store, ast.Del)):
+                    self.fitted.add(a)
+                # self.A[i] = v / self.A.b = v / self.A.append(v) / self.A += v: writes INTO a fitted object
+                if isinstance(n, (ast.Subscript, ast.Attribute)) and isinstance(n.ctx, ast.Store):
+                    d = _dotted(n)
+                    if d and d[0] == "self" and len(d) >= 2:
+                        self.fitted.add(d[1])
+                if isinstance(n, ast.Call):
+                    d = _dotted(n.func)
+                    if d and d[0] == "self" and len(d) >= 3 and d[-1] in MUTATORS:
+                        self.fitted.add(d[1])
+                    if d and d[-1] == "setattr" and n.args and isinstance(n.args[0], ast.Name) and n.args[0].id == "self":
+                        if len(n.args) > 1 and isinstance(n.args[1], ast.Constant) and isinstance(n.args[1].value, str):
+                            self.fitted.add(n.args[1].value)
+        self.fitted -= set(self.methods)
+        self.summaries = {}     # method -> (exposed reads [(attr, line, via)], attributes certainly written at exit | None)
+        self.active = set()
+
+    # ---- expressions: reads of fitted attributes that are not yet defined
+    def reads(self, node, defined, out, via):
+        if node is None:
+            return
+        for n in ast.walk(node):
+            a = _self_attr(n)
+            if a is not None and isinstance(n.ctx, ast.Load):
+                if a in self.fitted and a not in defined:
+                    out.append((a, getattr(n, "lineno", 0), via))
+            if isinstance(n, ast.Call):
+                d = _dotted(n.func)
+                if d and d[-1] in ("hasattr", "getattr") and len(d) == 1 and n.args and isinstance(n.args[0], ast.Name) and n.args[0].id == "self":
+                    if len(n.args) > 1 and isinstance(n.args[1], ast.Constant) and isinstance(n.args[1].value, str):
+                        a = n.args[1].value
+                        if a in self.fitted and a not in defined:
+                            out.append((a, n.lineno, via + d[-1] + "()"))
+                    else:
+                        out.append(("<computed attribute name>", n.lineno, via + d[-1] + "()"))
+                if d and d[-1] == "vars" and len(d) == 1 and n.args and isinstance(n.args[0], ast.Name) and n.args[0].id == "self":
+                    out.append(("<vars(self)>", n.lineno, via))
+                if d and len(d) == 2 and d[0] == "self" and d[1] in self.methods:
+                    ex, _ = self.summary(d[1])
+                    for a, line, v2 in ex:
+                        if a not in defined:
+                            out.append((a, line, via + "self." + d[1] + "() -> " + v2))
+                elif d and len(d) == 2 and d[0] == "self" and d[1] not in self.fitted and d[1] not in self.init_attrs and d[1] not in getattr(self, "abstract", ()):
+                    out.append(("<self." + d[1] + "(): a method defined outside the library's classes, not followed>", n.lineno, via))
+            if isinstance(n, ast.Attribute) and isinstance(n.value, ast.Name) and n.value.id == "self" and n.attr == "__dict__":
+                out.append(("<self.__dict__>", n.lineno, via))
+
+    def calls_defining(self, node):
+        """attributes certainly written by the self.method() calls inside this expression / statement"""
+        got = set()
+        for n in ast.walk(node):
+            if isinstance(n, ast.Call):
+                d = _dotted(n.func)
+                if d and len(d) == 2 and d[0] == "self" and d[1] in self.methods:
+                    _, w = self.summary(d[1])
+                    got |= (w or set())
+        return got
+
+    def store(self, target, defined, out, via):
+        if isinstance(target, (ast.Tuple, ast.List)):
+            for e in target.elts:
+                self.store(e, defined, out, via)
+        elif isinstance(target, ast.Starred):
+            self.store(target.value, defined, out, via)
+        else:
+            a = _self_attr(target)
+            if a is not None:
+                defined.add(a)
+            else:
+                # self.A[i] = v / self.A.b = v: needs the old object (a read); x[self.k] = v: reads in the index
+                for ch in ast.iter_child_nodes(target):
+                    self.reads(ch, defined, out, via)
+
+    # ---- statements: must-define analysis; `defined` None = unreachable (after return / raise)
+    def block(self, stmts, defined, out, via):
+        for st in stmts:
+            if defined is None:
+                return None
+            defined = self.stmt(st, defined, out, via)
+        return defined
+
+    @staticmethod
+    def meet(a, b):
+        if a is None:
+            return b
+        if b is None:
+            return a
+        return a & b
+
+    def stmt(self, st, defined, out, via):
+        if isinstance(st, ast.Assign):
+            self.reads(st.value, defined, out, via)
+            defined = defined | self.calls_defining(st.value)
+            for t in st.targets:
+                self.store(t, defined, out, via)
+            return defined
+        if isinstance(st, ast.AnnAssign):
+            self.reads(st.value, defined, out, via)
+            if st.value is not None:
+                defined = defined | self.calls_defining(st.value)
+                self.store(st.target, defined, out, via)
+            return defined
+        if isinstance(st, ast.AugAssign):
+            self.reads(st.value, defined, out, via)
+            a = _self_attr(st.target)
+            if a is not None:
+                if a in self.fitted and a not in defined:
+                    out.append((a, st.lineno, via + "augmented assignment"))
+                defined = defined | {a}
+            else:
+                self.reads(st.target, defined, out, via)
+            return defined
+        if isinstance(st, (ast.Return, ast.Raise)):
+            for ch in ast.iter_child_nodes(st):
+                self.reads(ch, defined, out, via)
+            return None
+        if isinstance(st, ast.If):
+            self.reads(st.test, defined, out, via)
+            d0 = defined | self.calls_defining(st.test)
+            return self.meet(self.block(st.body, set(d0), out, via), self.block(st.orelse, set(d0), out, via))
+        if isinstance(st, (ast.For, ast.AsyncFor)):
+            self.reads(st.iter, defined, out, via)
+            d0 = defined | self.calls_defining(st.iter)
+            self.store(st.target, d0, out, via)
+            self.block(st.body, set(d0), out, via)
+            r = self.block(st.orelse, set(d0), out, via)
+            return d0 if r is None else self.meet(d0, r)
+        if isinstance(st, ast.While):
+            self.reads(st.test, defined, out, via)
+            self.block(st.body, set(defined), out, via)
+            r = self.block(st.orelse, set(defined), out, via)
+            return defined if r is None else self.meet(defined, r)
+        if isinstance(st, (ast.With, ast.AsyncWith)):
+            for it in st.items:
+                self.reads(it.context_expr, defined, out, via)
+                if it.optional_vars is not None:
+                    self.store(it.optional_vars, defined, out, via)
+            return self.block(st.body, defined, out, via)
+        if isinstance(st, ast.Try):
+            b = self.block(st.body, set(defined), out, via)
+            if b is not None:
+                b = self.block(st.orelse, b, out, via)
+            res = b
+            for h in st.handlers:
+                res_h = self.block(h.body, set(defined), out, via)      # the body may have failed before any of its stores
+                res = res_h if res is None else self.meet(res, res_h)
+            if st.finalbody:
+                base = defined if res is None else res
+                f = self.block(st.finalbody, set(base), out, via)
+                return None if (res is None or f is None) else f
+            return res
+        if isinstance(st, (ast.FunctionDef, ast.AsyncFunctionDef, ast.ClassDef)):
+            self.reads(st, defined, out, via + "nested " + st.name + ": ")      # a nested function may run at any later point: its reads count here
+            return defined
+        if isinstance(st, ast.Delete):
+            for t in st.targets:
+                a = _self_attr(t)
+                if a is not None:
+                    defined = defined - {a}
+                else:
+                    self.reads(t, defined, out, via)
+            return defined
+        # Expr, Assert, Pass, Global, Import, Match ...: every expression inside is read in place
+        self.reads(st, defined, out, via)
+        return defined | self.calls_defining(st)
+
+    def summary(self, name):
+        if name in self.summaries:
+            return self.summaries[name]
+        if name in self.active:
+            return [], set()        # recursion: the outer activation reports
+        self.active.add(name)
+        out = []
+        end = self.block(self.methods[name].body, set(), out, "")
+        # what the method certainly writes: the stores on every path that reaches the end or a return (conservative: the fall-through / meet only)
+        written = self._written_on_every_path(self.methods[name])
+        self.active.discard(name)
+        self.summaries[name] = (out, written)
+        return self.summaries[name]
+
+    def _written_on_every_path(self, m):
+        """must-defined set at every exit (return or fall-through) of the method: the meet over all of them"""
+        exits = []
+
+        def walk(stmts, defined):
+            for st in stmts:
+                if defined is None:
+                    return None
+                if isinstance(st, ast.Return):
+                    exits.append(set(defined) | self.calls_defining(st))
+                    return None
+                if isinstance(st, ast.Raise):
+                    return None
+                if isinstance(st, ast.If):
+                    a, b = walk(st.body, set(defined)), walk(st.orelse, set(defined))
+                    defined = self.meet(a, b) if not (a is None and b is None) else None
+                    continue
+                if isinstance(st, (ast.For, ast.AsyncFor, ast.While)):
+                    walk(st.body, set(defined))
+                    continue
+                if isinstance(st, (ast.With, ast.AsyncWith)):
+                    defined = walk(st.body, defined)
+                    continue
+                if isinstance(st, ast.Try):
+                    walk(st.body, set(defined))
+                    for h in st.handlers:
+                        walk(h.body, set(defined))
+                    if st.finalbody:
+                        defined = walk(st.finalbody, defined)
+                    continue
+                dummy = []
+                defined = self.stmt(st, defined, dummy, "")
+            return defined
+        end = walk(m.body, set())
+        if end is not None:
+            exits.append(end)
+        if not exits:
+            return set()
+        r = exits[0]
+        for e in exits[1:]:
+            r = r & e
+        return r
+
+
+def _inherited_methods(c, by_name, depth=0):
+    """methods of the base classes that are defined in the library (looked up by simple name), nearest base last-wins order reversed = MRO-like"""
+    got = {}
+    if depth > 6:
+        return got
+    for b in reversed(c.bases):
+        d = _dotted(b)
+        bc = by_name.get(d[-1]) if d else None
+        if bc is not None and bc is not c:
+            got.update(_inherited_methods(bc, by_name, depth + 1))
+            got.update({m.name: m for m in bc.body if isinstance(m, (ast.FunctionDef, ast.AsyncFunctionDef))})
+    return got
+
+
+def scan_instance_tree(tree, mod, hits, classes, by_name=None):
+    if by_name is None:
+        by_name = {c.name: c for c in ast.walk(tree) if isinstance(c, ast.ClassDef)}
+    for c in ast.walk(tree):
+        if not isinstance(c, ast.ClassDef):
+            continue
+        sc = _InstScan(c, mod + "." + c.name, _inherited_methods(c, by_name))
+        # an abstract protocol (DecompositionMixin.fit calls self.fit_transform): a method this class does not define but EVERY library subclass does is
+        # analysed there, in the subclass, with this class's methods inherited
+        subs = [c2 for c2 in by_name.values() if any((_dotted(b) or ["?"])[-1] == c.name for b in c2.bases)]
+        sc.abstract = {m.name for c2 in subs for m in c2.body if isinstance(m, ast.FunctionDef)
+                       if all(any(isinstance(m3, ast.FunctionDef) and m3.name == m.name for m3 in c3.body) for c3 in subs)} if subs else set()
+        fits = sorted(n for n in sc.methods if n.startswith(FIT_PREFIX) or n.startswith("partial_fit"))
+        if not fits:
+            continue
+        classes.append({"class": mod + "." + c.name, "fit_methods": fits, "fitted_attributes": sorted(sc.fitted),
+                        "bases": [".".join(_dotted(b) or ["?"]) for b in c.bases]})
+        seen = set()
+        for f in fits:
+            ex, _ = sc.summary(f)
+            for a, line, via in ex:
+                if (f, a, line) in seen:
+                    continue
+                seen.add((f, a, line))
+                hits.append({"class": mod + "." + c.name, "method": f, "attribute": a, "line": line, "via": via})
+
+
+def scan_instance_source(src, mod):
+    hits, classes = [], []
+    scan_instance_tree(ast.parse(src), mod, hits, classes)
+    return hits, classes
+
+
+def scan_instance_state(repo):
+    """(hits: fit methods that read a fitted attribute before overwriting it, estimator classes found)"""
+    hits, classes = [], []
+    root = os.path.join(repo, "tensorly")
+    trees = []
+    for d, dirs, fs in sorted(os.walk(root)):
+        if any(x in d.split(os.sep) for x in SCAN_SKIP_DIRS):
+            continue
+        for f in sorted(fs):
+            if not f.endswith(".py") or f == "conftest.py":
+                continue
+            pth = os.path.join(d, f)
+            import warnings
+            try:
+                with warnings.catch_warnings():
+                    warnings.simplefilter("ignore")
+                    trees.append((os.path.relpath(pth, repo)[:-3].replace(os.sep, "."), ast.parse(open(pth).read())))
+            except SyntaxError:
+                continue          # reported by scan_persistent_state
+    by_name = {}
+    for mod, tree in trees:
+        for c in ast.walk(tree):
+            if isinstance(c, ast.ClassDef):
+                by_name.setdefault(c.name, c)
+    for mod, tree in trees:
+        scan_instance_tree(tree, mod, hits, classes, by_name)
+    return hits, classes
 
 
 if __name__ == "__main__":
@@ -632,5 +1017,11 @@ if __name__ == "__main__":
             print("OPEN ", h["kind"].ljust(28), h["function"], "|", h["name"], "| line", h["line"])
         for s in stale:
             print("STALE", s)
+        ih, cl = scan_instance_state(sys.argv[2] if len(sys.argv) > 2 else os.environ.get("VERIF_REPO", "/repo"))
+        print(len(cl), "estimator classes;", len(ih), "reads of fitted state before it is overwritten in a fit method")
+        for c in cl:
+            print("CLASS", c["class"], c["fit_methods"], c["fitted_attributes"])
+        for h in ih:
+            print("INST ", h)
     else:
         child_main()
